@@ -125,7 +125,9 @@ class TlSchemas:
             if schema.is_empty():
                 continue
             self.id_map[schema.id] = schema
-            self.name_map[schema.name] = schema
+            # several bundled files may define the same name (ton.blockId in ton_api.tl and tonlib_api.tl):
+            # the first definition wins, so lookups by name do not depend on which file was read last
+            self.name_map.setdefault(schema.name, schema)
             self.class_name_map[schema.class_name] = self.class_name_map.get(schema.class_name, []) + [schema]
 
     def set_default_untouchables(self):
@@ -413,7 +415,7 @@ class TlGenerator:
     def generate(self):
         result = []
         if os.path.isdir(self._path):
-            for f in os.listdir(self._path):
+            for f in sorted(os.listdir(self._path)):  # os.listdir order is file-system dependent
                 result += self.from_file(os.path.join(self._path, f))
         else:
             result = self.from_file(self._path)
